@@ -70,9 +70,25 @@ Definition checkF (c : case_t) : bool :=
 (* S. mode 0, well-formed file: the reader presents exactly the content (names, scale and unit from the SPEC
    lookup; raw data, or raw*SCALE), and without scaling the writer reproduces the
    bytes.  mode 1: reading back what the writer wrote presents exactly the content that was written.
-   Malformed files: nothing demanded here (C14). *)
+   Cut files: `prefix_ok` (the every-prefix theorem); other malformed files: nothing demanded. *)
+(* a cut file (the given words are a prefix of the reference encoding): the every-prefix statement
+   C18_every_prefix evaluated on what the LIBRARY presented: an error, or exactly the first k whole time blocks, or
+   (cut exactly at a tracer boundary inside the first time block) one time block with the first j tracers *)
+Definition is_cut (c : case_t) : bool :=
+  c_mal c && (c_mode c =? 0) && (c_size c <=? 4 * lenZ (c_ref c))
+  && (lenZ (c_ws c) =? c_size c / 4) && zlist_eqb (firstn (length (c_ws c)) (c_ref c)) (c_ws c).
+Definition prefix_ok (c : case_t) : bool :=
+  let f := c_f c in let T := c_T c in let D := c_D c in
+  negb (c_open_ok c)
+  || existsb (fun k => (136 + 4 * (Z.of_nat k * tb_wordsZ (tb0 f)) <=? c_size c)
+                       && view_match (c_scaled c) (view_of T D (trunc_times k f)) (c_view c))
+             (seq 1 (length (f_times f)))
+  || existsb (fun j => (c_size c =? 136 + 4 * tb_wordsZ (firstn j (tb0 f)))
+                       && view_match (c_scaled c) (view_of T D (first_tracers j f)) (c_view c))
+             (seq 1 (length (tb0 f) - 1)).
+
 Definition checkS (c : case_t) : bool :=
-  if c_mal c then true else
+  if c_mal c then (if is_cut c then prefix_ok c else true) else
   c_open_ok c && view_match (c_scaled c) (view_of (c_T c) (c_D c) (c_f c)) (c_view c)
   && (if (c_mode c =? 0) && negb (c_scaled c) then c_wrote c && zlist_eqb (c_written c) (given c) else true)
   && (if c_mode c =? 0 then true else c_wrote c).
